@@ -23,7 +23,7 @@ RULES["C18"] = (
     "Closed oriented template solids built by our own code (tetra, octa, box, icosphere, star prism, torus = genus 1, "
     "uv sphere; 1-3 bodies, disjoint or overlapping, optional vertex jitter), then seeded vertex relabelling, face "
     "permutation and cyclic rotation; always Trimesh(..., process=False). (a) fix_normals: EVERY subset of faces "
-    "re-wound for tetra, octa, box and tetra+tetra (2^F each) x multibody in {None, True, False}, and for larger "
+    "re-wound for tetra, octa, box and tetra+tetra (2^F each; x multibody in {None, True, False}, for the box True/False on every third subset in the quick tier), and for larger "
     "meshes structured subsets (one whole body, alternating, single face, complement of a single face, all, none) "
     "and random subsets, caches cold or warm, also through process(validate=True). (b) fill_holes: every single "
     "face and every adjacent pair removed on 12 templates, plus generated sets of triangle/quad holes that are "
@@ -179,12 +179,12 @@ ENUM_TEMPLATES = {
 }
 
 
-def enum_flips(names, seed, variants=(None, True, False), stride=1):
+def enum_flips(names, seed, variants=(None, True, False), stride=1, offset=0):
     k = 0
     for name in names:
         spec = ENUM_TEMPLATES[name]
         nf = meshes.n_faces(spec)
-        for bits in range(0, 2**nf, stride):
+        for bits in range(offset, 2**nf, stride):
             flip = [i for i in range(nf) if bits >> i & 1]
             for mb in variants:
                 k += 1
@@ -238,7 +238,13 @@ def flip_case(draw):
 
 @subcheck("C18", "flip_enum", shards={"quick": 16, "thorough": 16})
 def s_flip_enum(ctx):
-    ctx.enumerate("C18.fix_normals", enum_flips(["tetra", "octa", "tetra+tetra", "box"], ctx.seed), label="all_flip_subsets_of_tetra_octa_box_tetra+tetra_x_multibody{None,True,False}")
+    ctx.enumerate("C18.fix_normals", enum_flips(["tetra", "octa", "tetra+tetra"], ctx.seed), label="all_flip_subsets_of_tetra_octa_tetra+tetra_x_multibody{None,True,False}")
+    ctx.enumerate("C18.fix_normals", enum_flips(["box"], ctx.seed, variants=(None,)), label="all_4096_flip_subsets_of_box_multibody=None")
+    if ctx.tier == "quick":
+        # explicit True / False on one body differ from None only in the branch taken by fix_inversion: every third subset
+        ctx.enumerate("C18.fix_normals", enum_flips(["box"], ctx.seed, variants=(True, False), stride=3, offset=ctx.seed % 3), label="box_multibody{True,False}_every_third_subset", complete=False)
+    else:
+        ctx.enumerate("C18.fix_normals", enum_flips(["box"], ctx.seed, variants=(True, False)), label="all_4096_flip_subsets_of_box_multibody{True,False}")
 
 
 @subcheck("C18", "flip_hyp", shards={"quick": 8, "thorough": 16})
